@@ -1,4 +1,5 @@
 import Gaftools.Props.C06
+import Gaftools.Proofs.FinishLemmas
 /-!
 # C06 (continued) — from a path-shaped scaffold graph to the BO/NO numbering
 
@@ -23,19 +24,40 @@ def scaffoldIds (es : List Elt) : List V := es.filterMap (fun e => match e with 
 
 def strictlyIncreasing (l : List Int) : Prop := l.Pairwise (· < ·)
 
+theorem PathScaffold.toPathS {s : Scaffold} {es : List Elt} (hp : PathScaffold s es) :
+    Gaftools.Proofs.Finish.PathS s es := ⟨hp.names, hp.perm, hp.len, hp.adj⟩
+
+theorem PathScaffold.reverse {s : Scaffold} {es : List Elt} (hp : PathScaffold s es) : PathScaffold s es.reverse :=
+  let h := hp.toPathS.reverse
+  ⟨h.names, h.perm, h.len, h.adj⟩
+
+theorem scaffoldIds_eq (es : List Elt) : scaffoldIds es = es.filterMap Gaftools.Proofs.Finish.idOf := by
+  unfold scaffoldIds
+  congr 1; funext e; cases e <;> rfl
+
 /-- MAIN: offsets increasing along `es` ⇒ numbered along `es` -/
 theorem finish_path (s : Scaffold) (es : List Elt) (aps : List V) (so : V → Option Int) (sn : V → Option String)
     (hp : PathScaffold s es) (cs : List Int) (hso : (scaffoldIds es).mapM so = some cs) (h2 : 2 ≤ cs.length)
     (hinc : strictlyIncreasing cs) (hsn : (((scaffoldIds es).map sn).eraseDups).length = 1) :
     finishScaffold s aps so sn = .ok ⟨aps, s.bubbles.flatten, numberChain s es, es.length, s.bubbles.length⟩ := by
-  sorry
+  rw [scaffoldIds_eq] at hso hsn
+  exact Gaftools.Proofs.Finish.finish_path_core s es aps so sn hp.toPathS cs hso h2 hinc hsn
 
 /-- offsets decreasing along `es` ⇒ numbered along `es.reverse` (i.e. again in increasing reference order) -/
 theorem finish_path_rev (s : Scaffold) (es : List Elt) (aps : List V) (so : V → Option Int) (sn : V → Option String)
     (hp : PathScaffold s es) (cs : List Int) (hso : (scaffoldIds es).mapM so = some cs) (h2 : 2 ≤ cs.length)
     (hdec : strictlyIncreasing cs.reverse) (hsn : (((scaffoldIds es).map sn).eraseDups).length = 1) :
     finishScaffold s aps so sn = .ok ⟨aps, s.bubbles.flatten, numberChain s es.reverse, es.length, s.bubbles.length⟩ := by
-  sorry
+  rw [scaffoldIds_eq] at hso hsn
+  have hso' : (es.reverse.filterMap Gaftools.Proofs.Finish.idOf).mapM so = some cs.reverse := by
+    rw [List.filterMap_reverse]; exact Gaftools.Proofs.Finish.mapM_reverse so _ cs hso
+  have hsn' : (((es.reverse.filterMap Gaftools.Proofs.Finish.idOf).map sn).eraseDups).length = 1 := by
+    rw [List.filterMap_reverse, List.map_reverse]
+    exact Gaftools.Proofs.Finish.eraseDups_length_one_reverse _ hsn
+  have h := Gaftools.Proofs.Finish.finish_path_core s es.reverse aps so sn hp.reverse.toPathS cs.reverse hso'
+    (by simpa using h2) hdec hsn'
+  rw [List.length_reverse] at h
+  exact h
 
 /-! non-vacuity: scaffold a — bubble0 — scaffold b — scaffold c, stored in another order -/
 def exS : Scaffold :=
